@@ -53,4 +53,39 @@ def c19(tier):
     )
 
 
-PROPS = {"C06": c06, "C16": c16, "C19": c19}
+def tree_jobs(tier):
+    jobs = []
+    for n in (0, 1, 2):
+        jobs.append(Job("h_tree::tree_rule", (n, 6, 2), {}, budget_s=1500, validate=40))
+    jobs.append(Job("h_tree::tree_rule", (3, 8, 0), {}, budget_s=1500, validate=40))
+    if tier != "quick":
+        jobs.append(Job("h_tree::tree_rule", (3, 8, 2), {}, budget_s=3000, validate=60))
+        jobs.append(Job("h_tree::tree_rule", (3, 6, 0), {}, budget_s=3000, validate=60))
+        jobs.append(Job("h_tree::tree_rule", (4, 8, 0), {}, budget_s=6000, validate=60))
+    return jobs
+
+
+TREE_BOUNDS = {"records": "n <= 2 with digests [0-9a-z] and all hash-iteration orders of validate; n = 3 with digests in {a,b,r} (quick: one hash order; "
+                          "thorough: all orders, [0-9a-z] digests, n = 4 with {a,b,r})",
+               "shapes": "every record is a creation, an update / deletion / resolution marker of any earlier record, or the child of an unrecorded (dangling) parent",
+               "orders": "every order of learning through add(); the opposite order through unvalidated_add()+validate(); one re-delivery"}
+TREE_ASSUME = ["revisions are built with the crate's own constructors (index = parent index + 1); one-character digests"]
+
+
+def c05(tier):
+    return dict(jobs=tree_jobs(tier), bounds=TREE_BOUNDS, assumptions=TREE_ASSUME,
+                note="revisiontree.rs (add/unvalidated_add/validate/is_valid_cached/get_leafs/get_winner) + revision.rs from MIR; oracle h_tree::check_against_spec")
+
+
+def c15(tier):
+    jobs = []
+    combos = [(0, 6, 1), (1, 6, 1), (1, 6, 2), (2, 8, 1)] if tier == "quick" else [(0, 6, 1), (0, 6, 2), (1, 6, 1), (1, 6, 2), (2, 6, 1), (2, 8, 2), (3, 8, 1)]
+    for c in combos:
+        jobs.append(Job("h_tree::tree_stage", c, {}, budget_s=3000, validate=40))
+    return dict(jobs=jobs, bounds={"committed_records": "0..%d" % max(c[0] for c in combos), "staged_records": "1..%d" % max(c[2] for c in combos),
+                                   "combos [committed, digest class, staged]": [list(c) for c in combos]},
+                assumptions=TREE_ASSUME + ["kernel level only: RevisionTree::{add, unstage, commit, has_staging}; the Melda-level stage/replay/guards are not yet covered"],
+                note="revisiontree.rs from MIR; harness h_tree::tree_stage")
+
+
+PROPS = {"C06": c06, "C16": c16, "C19": c19, "C05": c05, "C15": c15}
